@@ -452,6 +452,18 @@ func c03Observe(id, src string, b []byte, t wire.Type, seed int64, inf *inflight
 		if err != nil {
 			o["ra"] = res(false, capN(off, len(b)), nilV, errClass(err))
 		}
+		// the library's own forcing (wire.EvaluateValue) on a fresh decode: it must report what full forcing reports
+		o["ev"] = "skipped"
+		rd2 := binary.NewReader(bytes.NewReader(b))
+		if v2, _, err2 := rd2.ReadValue(t, 0); err2 == nil {
+			if e3 := wire.EvaluateValue(v2); e3 == nil {
+				o["ev"] = "ok"
+			} else {
+				o["ev"] = "error"
+			}
+		} else {
+			o["ev"] = "error"
+		}
 		// pure stream reader under each segmentation
 		if known {
 			var sts []wj.J
@@ -739,6 +751,34 @@ func cmdC14W(args []string) error {
 			return err
 		}
 		n++
+	}
+	// signed zeros wherever a double is hashed or compared: set items, map keys, keys that are sets, list items,
+	// map values, struct fields -- in both argument orders (emit compares both)
+	d := wire.NewValueDouble
+	nz := d(math.Copysign(0, -1))
+	dset := func(vs ...wire.Value) wire.Value { return wire.NewValueSet(wire.ValueListFromSlice(wire.TDouble, vs)) }
+	dlist := func(vs ...wire.Value) wire.Value { return wire.NewValueList(wire.ValueListFromSlice(wire.TDouble, vs)) }
+	dmap := func(kt, vt wire.Type, items ...wire.MapItem) wire.Value {
+		return wire.NewValueMap(wire.MapItemListFromSlice(kt, vt, items))
+	}
+	str := wire.NewValueString
+	zeroPairs := [][2]wire.Value{
+		{dset(d(0), d(1.5)), dset(nz, d(1.5))},
+		{dset(d(0)), dset(nz)},
+		{dset(d(1.5), nz), dset(d(0), d(1.5))},
+		{dlist(d(0), d(1.5)), dlist(nz, d(1.5))},
+		{dmap(wire.TDouble, wire.TBinary, wire.MapItem{Key: d(0), Value: str("a")}), dmap(wire.TDouble, wire.TBinary, wire.MapItem{Key: nz, Value: str("a")})},
+		{dmap(wire.TBinary, wire.TDouble, wire.MapItem{Key: str("k"), Value: d(0)}), dmap(wire.TBinary, wire.TDouble, wire.MapItem{Key: str("k"), Value: nz})},
+		{dmap(wire.TSet, wire.TI32, wire.MapItem{Key: dset(d(0), d(2)), Value: wire.NewValueI32(1)}),
+			dmap(wire.TSet, wire.TI32, wire.MapItem{Key: dset(d(2), nz), Value: wire.NewValueI32(1)})},
+		{wire.NewValueStruct(wire.Struct{Fields: []wire.Field{{ID: 1, Value: dset(d(0))}, {ID: 2, Value: d(0)}}}),
+			wire.NewValueStruct(wire.Struct{Fields: []wire.Field{{ID: 2, Value: nz}, {ID: 1, Value: dset(nz)}}})},
+		{wire.NewValueSet(wire.ValueListFromSlice(wire.TList, []wire.Value{dlist(d(0))})), wire.NewValueSet(wire.ValueListFromSlice(wire.TList, []wire.Value{dlist(nz)}))},
+	}
+	for i, p := range zeroPairs {
+		if err := emit(fmt.Sprintf("z%d", i), p[0], p[1]); err != nil {
+			return err
+		}
 	}
 	for i := 0; i < c.random; i++ {
 		t := allTypes[r.Intn(len(allTypes))]
